@@ -36,7 +36,7 @@ ASSUMPTIONS = ["theorems are over the reals for the Lean translation of Spectrum
                "CUDA backend: covered by the kernel theorems of C01 (CUDA = Ref) and the attribute theorems; the oracle runs numba and numpy only",
                "NOT decided by theorem (DESIGN §5, C11 'N'): 'for Gaussian noise with independent segments the empirical deviations agree with the analytic "
                "deviations' is distributional; it is only supported by a thorough-tier probe whose numbers are recorded in the evidence notes and which "
-               "alarms only on a gross (> factor 3) mismatch (measured on the unchanged tree: median ratios 0.88 .. 1.00 over 3 seeds)"]
+               "alarms only on a gross (> factor 3) mismatch (measured on the unchanged tree: median ratios 0.87 .. 1.00 over 4 runs)"]
 RULE = ("cases = (auto record kind noise/offset/drift/red/tone/zero/const | pair kind, N, fs, order -1..2, scheduler (4), window, backend numba/numpy, "
         "entry compute_spectrum | compute_single_bin with L incl. L = N); every bin is re-evaluated from its own (f, L, D); distinct by (mode, kind, order, "
         "scheduler, backend, entry); non-trivial = a bin with K >= 2 and a scatter above its rounding budget")
@@ -200,9 +200,9 @@ def oracle(ctx, intensive: bool = False, hints: List[Dict[str, Any]] = ()) -> C.
         run_case(P, x0, None, 2.0, o, "offset", None)
         run_case(P, x0, y0, 2.0, o, "delayed", None)
     n = ctx.scale(210, 2800) * (4 if intensive else 1)
-    sizes = [64, 200, 257, 600, 1000] if not ctx.thorough else [64, 100, 257, 600, 1000, 2048, 4000]
+    sizes = [8, 64, 200, 257, 600, 1000] if not ctx.thorough else [8, 16, 64, 100, 257, 600, 1000, 2048, 4000]
     for i in range(n):
-        if ctx.time_left() < (120 if ctx.thorough else 25) or len(P.violations) >= S.MAX_VIOL:
+        if ctx.time_left() < (600 if ctx.thorough else 25) or len(P.violations) >= S.MAX_VIOL:
             P.notes.append("time budget reached" if len(P.violations) < S.MAX_VIOL else "violation cap reached")
             break
         cross = i % 2 == 1
